@@ -121,7 +121,10 @@ def custom_registry():
     add_custom_natives(reg)
     interface_contracts(reg, IC, FRAME['native'], names=['inplace_pow'], per_method=CUSTOM_HELP)
     static_contracts(reg, IC, impl_cls=IC, help_={'skip_init': True, '_mult_modulo_bytes': {
-        'lemmas': {'exit': {'mulmod': 'mulmod_reduce(ival(term1), ival(term2), ival(modulus))'}}}})
+        # (t1 mod m)(t2 mod m) == t1 t2 (mod m), and the two instances for "only one operand was reduced"
+        'lemmas': {'exit': {'mulmod': 'mulmod_reduce(ival(term1), ival(term2), ival(modulus))',
+                            'mulmod1': 'mulmod_reduce(ival(term1) % ival(modulus), ival(term2), ival(modulus))',
+                            'mulmod2': 'mulmod_reduce(ival(term1), ival(term2) % ival(modulus), ival(modulus))'}}}})
     return reg
 
 
